@@ -17,6 +17,8 @@ Inductive cop :=
 
 Inductive rw := ARead | AWrite.
 
+Inductive access_spec := APublic | AProtected | APrivate.
+
 (* the part of the object's life an access belongs to *)
 Inductive phase :=
 | PInit          (* member initialisers / construction of a sub-object: before any thread is spawned *)
